@@ -40,6 +40,7 @@ type Result struct {
 	BaseNs       int64               `json:"base_ns"`
 	Desc         bool                `json:"desc"` // newest first
 	LabelSets    []map[string]string `json:"label_sets,omitempty"`
+	Complexity   int64               `json:"complexity,omitempty"` // value served for the TraceQL complexity estimate
 }
 
 // Row is one served row in harness terms.
@@ -98,6 +99,7 @@ func (r *Result) Rows() []Row {
 
 // Stmt is one recorded statement.
 type Stmt struct {
+	Script  *Result // request-scoped script the statement ran under (identifies the request)
 	SQL     string
 	Cols    []string
 	Class   string
@@ -139,6 +141,20 @@ func (db *DB) SetScript(r Result) {
 	db.script = []Result{r}
 	db.next = 0
 	db.mu.Unlock()
+}
+
+// ForScript returns the statements issued under the request-scoped script r (all statements after
+// the first n when the request's context was not propagated to any statement).
+func (db *DB) ForScript(r *Result, n int) []*Stmt {
+	db.mu.Lock()
+	defer db.mu.Unlock()
+	var res []*Stmt
+	for _, s := range db.Stmts[n:] {
+		if s.Script == r {
+			res = append(res, s)
+		}
+	}
+	return res
 }
 
 // Count returns the number of statements seen so far.
@@ -342,6 +358,9 @@ func (c *conn) QueryContext(ctx context.Context, q string, args []driver.NamedVa
 	}
 	st.Class = "data"
 	st.Cols = Projection(q)
+	if r, ok := ctx.Value(scriptKey{}).(*Result); ok {
+		st.Script = r
+	}
 	db.mu.Lock()
 	var res Result
 	if r, ok := ctx.Value(scriptKey{}).(*Result); ok && r != nil {
@@ -376,7 +395,11 @@ func (c *conn) QueryContext(ctx context.Context, q string, args []driver.NamedVa
 	db.mu.Lock()
 	db.OpenRows++
 	db.mu.Unlock()
-	return &rows{db: db, st: st, cols: st.Cols, res: res, data: res.Rows(), ctx: ctx, sql: q}, nil
+	data := res.Rows()
+	if res.Complexity > 0 && len(st.Cols) == 1 && len(data) == 0 {
+		data = []Row{{}}
+	}
+	return &rows{db: db, st: st, cols: st.Cols, res: res, data: data, ctx: ctx, sql: q}, nil
 }
 
 func sleepCtx(ctx context.Context, d time.Duration) error {
@@ -422,7 +445,10 @@ func (r *rows) Close() error {
 
 // ValueFor types a column by its name; the reader scans by position into Go types that
 // database/sql can only fill from the right driver value kinds.
-func ValueFor(col, sqlText string, row Row, idx int, ncols int) driver.Value {
+func ValueFor(col, sqlText string, row Row, idx int, ncols int, res *Result) driver.Value {
+	if res.Complexity > 0 && ncols == 1 && (strings.Contains(strings.ToLower(col), "complexity") || strings.Contains(strings.ToLower(col), "count")) {
+		return res.Complexity
+	}
 	c := strings.ToLower(col)
 	if strings.Contains(sqlText, "tempo_traces") {
 		// realistic stored spans: FixedString(16)/FixedString(8) ids, payload as the writer stores it
@@ -521,7 +547,7 @@ func (r *rows) Next(dest []driver.Value) error {
 	}
 	row := r.data[r.pos]
 	for i, c := range r.cols {
-		dest[i] = ValueFor(c, r.sql, row, r.pos, len(r.cols))
+		dest[i] = ValueFor(c, r.sql, row, r.pos, len(r.cols), &r.res)
 	}
 	r.pos++
 	r.st.Served = r.pos
